@@ -6,6 +6,7 @@
 import CM.Driver.BagOps
 import CM.Model.Factory
 import CM.Model.Merge
+import CM.Model.CheckIds
 open Lean
 namespace CM
 
@@ -18,6 +19,7 @@ partial def edgeKToJson : EdgeK → Json
   | .switch table => Json.mkObj [("k", .str "switch"), ("table", .arr (table.map fun (k, i) => Json.arr #[valToJson k, toJson i]).toArray)]
   | .impure inner => Json.mkObj [("k", .str "impure"), ("inner", edgeKToJson inner)]
   | .byValue inner => Json.mkObj [("k", .str "byvalue"), ("inner", edgeKToJson inner)]
+  | .checkIds => Json.mkObj [("k", .str "check_ids")]
   | _ => Json.mkObj [("k", .str "other")]
 
 def bagToJsonSem (b : Bag) : Json :=
@@ -57,6 +59,12 @@ def opFactory (j : Json) : P Json := do
       | .ok b => Json.mkObj [("ok", bagToJsonSem b), ("wf", .bool b.wfB)]
       | .error .value => Json.mkObj [("err", .str "ValueError")]
       | .error (.bag e) => bagErrToJson e)
-  pure (Json.mkObj [("outs", .arr outs.toArray), ("caches", .arr cs.toArray), ("merges", .arr ms.toArray)])
+  let ks ← (← jArr (jFieldD j "checkids" (.arr #[]))).mapM fun c => do
+    let prev ← bagOfJson c
+    pure (match checkIdsBag prev with
+      | .ok b => Json.mkObj [("ok", bagToJsonSem b), ("wf", .bool b.wfB)]
+      | .error e => bagErrToJson e)
+  pure (Json.mkObj [("outs", .arr outs.toArray), ("caches", .arr cs.toArray), ("merges", .arr ms.toArray),
+    ("checkids", .arr ks.toArray)])
 
 end CM
